@@ -47,9 +47,10 @@ def gen_str(quick: bool) -> str:
         out.append(_cond(f"f_pos_{off}", ["s", "n"], S + N, f'    return call("#pos", s, n, "{off}") == R.r_pos(s, n, {off})', f'    return _rp("#pos", [s, n, "{off}"], R.r_pos(s, n, {off}))'))
     out.append(_cond("f_pos_default", ["s", "n"], S + N, '    return call("#pos", s, n) == R.r_pos(s, n, 0)', '    return _rp("#pos", [s, n], R.r_pos(s, n, 0))'))
     out.append(_cond("f_rpos", ["s", "n"], S + N, '    return call("#rpos", s, n) == R.r_rpos(s, n)', '    return _rp("#rpos", [s, n], R.r_rpos(s, n))'))
-    # sub
-    for a in range(-K, K + 1):
-        for b in range(-K, K + 1):
+    # sub: the integer range must exceed the string bound (|n| > len(s) is where clamping matters)
+    KS = L + 1 if quick else K
+    for a in range(-KS, KS + 1):
+        for b in range(-KS, KS + 1):
             out.append(_cond(f"f_sub_{_n(a)}_{_n(b)}", ["s"], S, f'    return call("#sub", s, "{a}", "{b}") == R.r_sub(s, {a}, {b})', f'    return _rp("#sub", [s, "{a}", "{b}"], R.r_sub(s, {a}, {b}))'))
     out.append(_cond("f_sub_default", ["s"], S, '    return call("#sub", s) == R.r_sub(s, 0, 0)', '    return _rp("#sub", [s], R.r_sub(s, 0, 0))'))
     # replace
